@@ -417,3 +417,43 @@ theorem write_eq_writeP (d : Datum) (h : d.depth ≤ 128) : write d = writeP d :
   writeAt_eq_writeP d 0 (by omega)
 
 end SteelVerif.C12
+
+namespace SteelVerif.C12
+
+/-! ## the writer's nesting counter is balanced -/
+
+theorem leaveSt_eq (dep : Nat) (t : Text) : leaveSt dep (t, dep + 1) = (cut dep t, dep) := by
+  unfold leaveSt cut
+  split <;> simp
+
+mutual
+theorem writeSt_eq : (d : Datum) → (dep : Nat) → writeSt d dep = (writeAt dep d, dep)
+  | .int _, dep => by simp [writeSt, writeAt, leaveSt_eq]
+  | .rat _ _, dep => by simp [writeSt, writeAt, leaveSt_eq]
+  | .bool _, dep => by simp [writeSt, writeAt, leaveSt_eq]
+  | .chr _, dep => by simp [writeSt, writeAt, leaveSt_eq]
+  | .str _, dep => by simp [writeSt, writeAt, leaveSt_eq]
+  | .sym _, dep => by simp [writeSt, writeAt, leaveSt_eq]
+  | .bytes _, dep => by simp [writeSt, writeAt, leaveSt_eq]
+  | .flo _, dep => by simp [writeSt, writeAt, leaveSt_eq]
+  | .other _, dep => by simp [writeSt, writeAt, leaveSt_eq]
+  | .list xs, dep => by
+    have := writeSeqSt_eq xs (dep + 1)
+    simp [writeSt, writeAt, this, leaveSt_eq]
+  | .vec xs, dep => by
+    have := writeSeqSt_eq xs (dep + 1)
+    simp [writeSt, writeAt, this, leaveSt_eq]
+  | .pair a d, dep => by
+    have h1 := writeSt_eq a (dep + 1)
+    have h2 := writeSt_eq d (dep + 1)
+    simp [writeSt, writeAt, h1, h2, leaveSt_eq]
+theorem writeSeqSt_eq : (xs : List Datum) → (dep : Nat) → writeSeqSt xs dep = (writeSeq dep xs, dep)
+  | [], dep => rfl
+  | [x], dep => by simp [writeSeqSt, writeSeq, writeSt_eq x dep]
+  | x :: y :: r, dep => by
+    have h1 := writeSt_eq x dep
+    have h2 := writeSeqSt_eq (y :: r) dep
+    simp [writeSeqSt, writeSeq, h1, h2]
+end
+
+end SteelVerif.C12
